@@ -261,6 +261,12 @@ def r3_mapping(rep, src):
 
     def dep_match(it, args, kw):
         s_ = symstr.lift(args[0])
+        lowered = False
+        if s_.key() not in scen and len(s_.parts) == 1 and isinstance(s_.parts[0], symstr.Fn) and s_.parts[0].name in ('lower', 'upper', 'casefold') \
+                and s_.parts[0].arg.key() in scen:
+            # the dependency text was case-folded before matching: every group is the folded spelling of what was written
+            lowered = s_.parts[0].name
+            s_ = s_.parts[0].arg
         if s_.key() not in scen:
             raise AnalysisError('parse_relations applies __dep_RE to %r, not to a single dependency' % (s_,))
         g = scen[s_.key()]
@@ -268,6 +274,8 @@ def r3_mapping(rep, src):
             return None
         d = it.h.new_dict()
         for k, v in g.items():
+            if lowered and v is not None:
+                v = getattr(symstr.lift(v), lowered)() if hasattr(symstr.lift(v), lowered) else symstr.SStr([symstr.Fn(lowered, symstr.lift(v), None, ())])
             it.h.objs[d.name]['entries'].append((k, v))
         return it.h.alloc('Match', {'groups': d})
 
